@@ -383,6 +383,10 @@ func runBin(c *BinCase) (bool, []string, error) {
 		if st.Kill == -2 {
 			kill(p)
 			kills++
+			// again: look at what the crash left before any feeder can repair it
+			stubs.mu.Lock()
+			stubs.down = true
+			stubs.mu.Unlock()
 			p, err = start()
 			if err != nil {
 				return true, classes, fmt.Errorf("%s: after SIGKILL of the idle program it does not come back on the same database: %v", what, err)
@@ -401,6 +405,9 @@ func runBin(c *BinCase) (bool, []string, error) {
 				}
 			}
 			classes = append(classes, "killed-after-ack")
+			stubs.mu.Lock()
+			stubs.down = false
+			stubs.mu.Unlock()
 		}
 	}
 	kill(p)
@@ -425,7 +432,7 @@ func TestC06Binary(t *testing.T) {
 	rapid.Check(t, func(rt *rapid.T) {
 		c := &BinCase{NTiles: rapid.IntRange(1, 2).Draw(rt, "ntiles")}
 		if rapid.Bool().Draw(rt, "slowsync") {
-			c.SlowSyncMs = rapid.SampledFrom([]int{10, 25, 40}).Draw(rt, "syncms")
+			c.SlowSyncMs = rapid.SampledFrom([]int{10, 25, 40, 100}).Draw(rt, "syncms")
 		}
 		n := rapid.IntRange(3, 8).Draw(rt, "nsteps")
 		for i := 0; i < n; i++ {
@@ -460,12 +467,12 @@ func TestC06Binary(t *testing.T) {
 // under a stretched commit with kills spread over the whole write, and kills right after
 // the first sight of a new checkpoint.
 func TestC06BinaryFixed(t *testing.T) {
-	st := vlib.StatsFor("C06", "binary-fixed", "fixed schedules for the real program: (a) 100 KiB checkpoints, commit stretched (fsync +25ms, page writes +1.5ms), SIGKILL 10/20/30/40/60/80ms into six successive updates; (b) six updates each killed the moment the new checkpoint is first visible through the HTTP API, commit stretched; same oracle as part binary; non-trivial = any")
+	st := vlib.StatsFor("C06", "binary-fixed", "fixed schedules for the real program: (a) 100 KiB checkpoints, commit stretched (fsync +25ms, page writes +1.5ms), SIGKILL 10/20/30/40/60/80ms into six successive updates; (b) six updates each killed the moment the new checkpoint is first visible through the HTTP API, commit stretched by 60ms per fsync; same oracle as part binary; non-trivial = any")
 	big := &BinCase{NTiles: 1, SlowSyncMs: 25, Steps: []BinStep{{Log: 1, Grow: 5, Kill: -1, ExtKB: 100}}}
 	for _, k := range []int{100, 200, 300, 400, 600, 800} {
 		big.Steps = append(big.Steps, BinStep{Log: 1, Grow: 3, Kill: k, ExtKB: 100})
 	}
-	seen := &BinCase{NTiles: 1, SlowSyncMs: 25, Steps: []BinStep{{Log: 1, Grow: 5, Kill: -1}, {Log: 0, Grow: 4, Kill: -1}}}
+	seen := &BinCase{NTiles: 1, SlowSyncMs: 60, Steps: []BinStep{{Log: 1, Grow: 5, Kill: -1}, {Log: 0, Grow: 4, Kill: -1}}}
 	for i := 0; i < 6; i++ {
 		seen.Steps = append(seen.Steps, BinStep{Log: i % 2, Grow: uint64(1 + i), Kill: -2})
 	}
